@@ -9,6 +9,7 @@ use std::panic::catch_unwind;
 use serde_json::Value;
 use serde_json::json;
 
+mod diff_props;
 mod git_props;
 mod matcher_props;
 mod merge_props;
@@ -29,6 +30,8 @@ fn main() {
         let res = catch_unwind(AssertUnwindSafe(|| match prop.as_str() {
             "c01" => merge_props::c01(&case),
             "c02" => merge_props::c02(&case),
+            "c03" => diff_props::c03(&case),
+            "c04" => diff_props::c04(&case),
             "c12" => refs_props::c12(&case),
             "c26" => wc_props::c26(&case),
             "c30" => matcher_props::c30(&case),
